@@ -215,12 +215,6 @@ def negativeConstIndex : Expr → Bool
   | .un "-" (.lit v "int" _) _ => match stoi? v with | some n => n > 0 | none => false
   | _ => false
 
-/-- the node's `line`/`column` -/
-def exprPos : Expr → P
-  | .lit _ _ p | .null p | .var _ p | .bin _ _ _ p | .un _ _ p | .cast _ _ p | .postfix _ _ p | .call _ _ p
-  | .member _ _ p | .new _ _ p | .this p | .super p | .index _ _ p | .arrLit _ p | .paren _ p
-  | .measure _ p | .assign _ _ p | .memberAssign _ _ _ p | .arrAssign _ _ _ p => p
-
 mutual
 
 /-- `parseType` -/
